@@ -27,20 +27,28 @@ LEVEL = "exploration"
 LIMIT = 10
 
 
-def make_spec(k: int, upd: bool, pos: int, ntasks: int, shape: str, poll_k: int, raise_style: str = "bare") -> dict[str, Any]:
+PROGS = ("int", "list-fresh", "list-inplace", "dict-inplace")
+
+
+def make_spec(k: int, upd: bool, pos: int, ntasks: int, shape: str, poll_k: int, raise_style: str = "bare", prog: str = "int") -> dict[str, Any]:
     tasks_: list[dict[str, Any]] = [ok() for _ in range(ntasks)]
-    tasks_[pos] = {"b": "transient", "k": k, "upd": upd, "raise": raise_style, "emit": [emit("k_f")]}
+    tasks_[pos] = {"b": "transient", "k": k, "upd": upd, "raise": raise_style, "emit": [emit("k_f")], "prog": prog}
     if poll_k and ntasks > 1:
         other = (pos + 1) % ntasks
-        tasks_[other] = {"b": "poll", "k": poll_k}
+        tasks_[other] = {"b": "poll", "k": poll_k, "prog": prog}
     if shape == "chain":
         st_ = [stage("a", [], [ok(emit("k_a"))]), stage("f", ["a"], tasks_), stage("z", ["f"], [ok()])]
     elif shape == "join":
         st_ = [stage("a", [], [ok()]), stage("f", ["a"], tasks_), stage("g", ["a"], [ok(), ok()]), stage("z", ["f", "g"], [ok()])]
     else:
         st_ = [stage("f", [], tasks_)]
-    return {"name": f"tr-k{k}-{'upd' if upd else 'noupd'}-{raise_style}-p{pos}of{ntasks}-{shape}-poll{poll_k}", "stages": st_,
-            "c14": {"k": k, "upd": upd, "pos": pos, "shape": shape, "poll_k": poll_k, "ntasks": ntasks, "raise": raise_style}}
+    return {"name": f"tr-k{k}-{'upd' if upd else 'noupd'}-{raise_style}-{prog}-p{pos}of{ntasks}-{shape}-poll{poll_k}", "stages": st_,
+            "c14": {"k": k, "upd": upd, "pos": pos, "shape": shape, "poll_k": poll_k, "ntasks": ntasks, "raise": raise_style, "prog": prog}}
+
+
+def _count(v: Any) -> int:
+    """Progress recorded in a seen value: the counter itself, or the number of items accumulated in a container."""
+    return len(v) if isinstance(v, (list, dict)) else (v or 0)
 
 
 def judge(c: Campaign, spec: dict[str, Any], run: Run, desc: Any, extra=()) -> None:
@@ -72,7 +80,7 @@ def judge(c: Campaign, spec: dict[str, Any], run: Run, desc: Any, extra=()) -> N
         key = f"_prog{pos}"
         for i, e in enumerate(led):
             want = min(i, k) if k >= 0 else i
-            have = e["seen"].get(key, 0)
+            have = _count(e["seen"].get(key, 0))
             if have != want:
                 viol.append(("progress-lost", f"attempt {i + 1} saw {key}={have}, expected {want} (progress attached to failure {i})"))
                 break
@@ -80,7 +88,7 @@ def judge(c: Campaign, spec: dict[str, Any], run: Run, desc: Any, extra=()) -> N
         other = (pos + 1) % p["ntasks"]
         pl = [e for e in tasks.ledger_snapshot() if e["stage"] == "f" and e["task"] == other]
         for i, e in enumerate(pl):
-            have = e["seen"].get(f"_poll{other}", 0)
+            have = _count(e["seen"].get(f"_poll{other}", 0))
             if have != min(i, p["poll_k"]):
                 viol.append(("poll-context-lost", f"poll attempt {i + 1} saw _poll{other}={have}, expected {min(i, p['poll_k'])}"))
                 break
@@ -90,9 +98,9 @@ def judge(c: Campaign, spec: dict[str, Any], run: Run, desc: Any, extra=()) -> N
     for clause, detail in viol:
         c.violation(clause, case, detail, sig=p)
     c.case(("c14", spec["name"], desc), k >= 2 or k < 0,
-           [f"k:{'forever' if k < 0 else k}", "upd" if upd else "noupd", f"pos:{pos}", f"shape:{p['shape']}", f"poll:{p['poll_k']}"] + list(extra),
+           [f"k:{'forever' if k < 0 else k}", "upd" if upd else "noupd", f"pos:{pos}", f"shape:{p['shape']}", f"poll:{p['poll_k']}", f"prog:{p.get('prog', 'int')}"] + list(extra),
            sample={"spec": spec["name"], "schedule": desc, "executions": n, "workflow": got["workflow"],
-                   "progress_seen": [e["seen"].get(f"_prog{pos}", 0) for e in led][:14]} if (k >= 2 or k < 0) else None)
+                   "progress_seen": [_count(e["seen"].get(f"_prog{pos}", 0)) for e in led][:14]} if (k >= 2 or k < 0) else None)
 
 
 def bound_for(k: int) -> int:
@@ -109,9 +117,10 @@ def shard_grid(prop: str, tier: str, seed: int, ks: list[int]) -> dict[str, Any]
                     if not upd and (ntasks, pos) not in ((1, 0), (3, 1)):
                         continue
                     for rs in (("bare", "from", "cause") if upd and shape == "chain" else ("bare",)):
-                        spec = make_spec(k, upd, pos, ntasks, shape, poll_k=2 if ntasks > 1 else 0, raise_style=rs)
-                        run = Run(spec, max_steps=bound_for(k)).drain()
-                        judge(c, spec, run, {"style": "fifo", "d": [], "R": 2}, ["grid", f"raise:{rs}"])
+                        for prog in (PROGS if upd and rs == "bare" and shape == "chain" else ("int",)):
+                            spec = make_spec(k, upd, pos, ntasks, shape, poll_k=2 if ntasks > 1 else 0, raise_style=rs, prog=prog)
+                            run = Run(spec, max_steps=bound_for(k)).drain()
+                            judge(c, spec, run, {"style": "fifo", "d": [], "R": 2}, ["grid", f"raise:{rs}"])
     return c.export()
 
 
@@ -122,9 +131,10 @@ def shard_random(prop: str, tier: str, seed: int, n: int) -> dict[str, Any]:
     @settings(max_examples=n, database=None, deadline=None, derandomize=False, suppress_health_check=list(HealthCheck),
               phases=[Phase.generate], report_multiple_bugs=False)
     @given(st.sampled_from([-1, 0, 1, 2, 3, 4, 7, 9, 10, 11, 13]), st.booleans(), st.integers(1, 3), st.integers(0, 2),
-           st.sampled_from(["chain", "join", "single"]), st.integers(0, 2), schedule_desc(), st.sampled_from(["bare", "from", "cause"]))
-    def t(k, upd, ntasks, pos, shape, poll_k, sd, rs):
-        spec = make_spec(k, True, pos % ntasks, ntasks, shape, poll_k, raise_style=rs)
+           st.sampled_from(["chain", "join", "single"]), st.integers(0, 2), schedule_desc(), st.sampled_from(["bare", "from", "cause"]),
+           st.sampled_from(PROGS))
+    def t(k, upd, ntasks, pos, shape, poll_k, sd, rs, prog):
+        spec = make_spec(k, True, pos % ntasks, ntasks, shape, poll_k, raise_style=rs, prog=prog)
         spec["c14"]["upd"] = True  # shuffled runs always carry progress (the no-update variant counts attempts in harness memory)
         run = Run(spec, make_schedule(sd), max_steps=bound_for(k)).drain()
         judge(c, spec, run, sd, [f"style:{sd['style']}", f"raise:{rs}"])
@@ -153,7 +163,7 @@ def run(c: Campaign, jobs: int) -> None:
         "step bound 40 x limit + 400 deliveries stands in for 'retried forever'",
         "SQLite backend only",
     ]
-    for cls in ("k:forever", "k:0", "k:3", "k:13", "upd", "noupd", "pos:2", "shape:join", "style:hold", "raise:from", "raise:cause"):
+    for cls in ("k:forever", "k:0", "k:3", "k:13", "upd", "noupd", "pos:2", "shape:join", "style:hold", "raise:from", "raise:cause", "prog:list-inplace", "prog:dict-inplace", "prog:list-fresh"):
         if c.classes.get(cls, 0) == 0:
             c.harness_error(f"generator starvation: class {cls} never produced")
 
